@@ -27,6 +27,7 @@ def decEv (v : V) : Option Ev := do
   | [.atom "handleBegin", r, w] => pure (.handleBegin (← sets r w))
   | [.atom "dispatch", k, fd] => pure (.dispatch (← isW k) (← fd.nat?))
   | [.atom "consume", n] => pure (.consume (← n.nat?))
+  | [.atom "raised"] => pure .raised
   | [.atom "post", r, w] => pure (.post (← sets r w))
   | [.atom "setClosing"] => pure .setClosing
   | [.atom "joined"] => pure .joined
